@@ -5,6 +5,7 @@ import (
 	"io/ioutil"
 	"os"
 	"os/exec"
+	"regexp"
 	"strings"
 )
 
@@ -14,7 +15,7 @@ import (
 // vpRepoWithOutput returns a Repository whose next git command prints out
 // (exit status st). Under the engine, GitCommand and (*exec.Cmd).Output are
 // stubbed; natively a fake git binary prints the same bytes.
-func vpRepoWithOutput(out []byte, st int) *Repository {
+func vpRepoWithOutput(out []byte, st int, ents []vpCfgEntry) *Repository {
 	if vp_Native() {
 		f, err := ioutil.TempFile("", "vpfake")
 		if err != nil {
@@ -29,10 +30,16 @@ func vpRepoWithOutput(out []byte, st int) *Repository {
 		}
 		return &Repository{gitDir: ".", gitBin: "/verif/harness/_rt/fakegit"}
 	}
+	getRegexp, pattern := false, ""
 	vp_Stub("(*github.com/github/git-sizer/git.Repository).GitCommand", func(r *Repository, args ...string) *exec.Cmd {
 		// the scripted bytes are what git prints for exactly this command
 		okCmd := len(args) == 3 && args[0] == "config" &&
 			((args[1] == "--list" && args[2] == "-z") || (args[1] == "-z" && args[2] == "--list"))
+		if !okCmd && len(args) == 4 && args[0] == "config" &&
+			((args[1] == "--get-regexp" && args[2] == "-z") || (args[1] == "-z" && args[2] == "--get-regexp")) {
+			// `git config -z --get-regexp P`: modelled below (same record format as --list -z)
+			okCmd, getRegexp, pattern = true, true, args[3]
+		}
 		if !okCmd {
 			vp_Inconclusive("GetConfig issued a git command whose output format is not modelled: " + strings.Join(args, " "))
 		}
@@ -42,9 +49,73 @@ func vpRepoWithOutput(out []byte, st int) *Repository {
 		if st != 0 {
 			return nil, &exec.ExitError{}
 		}
+		if getRegexp {
+			return vpGetRegexpModel(pattern, ents)
+		}
 		return out, nil
 	})
 	return &Repository{gitDir: ".", gitBin: "git"}
+}
+
+// vpGetRegexpModel: git's contract for `git config -z --get-regexp P`
+// (builtin/config.c; compared with git 2.39.5 on the menus used here, see
+// DESIGN): P is lower-cased from its start to its first '.' and from its end
+// back to its last '.', compiled as a POSIX ERE (exit status 6 when invalid),
+// and searched (not anchored) in each canonical key, in listing order; the
+// matching entries are printed as `key LF value NUL` / `key NUL`; exit status
+// 1 when nothing matched. Only the ERE subset on which Go's syntax agrees
+// with POSIX is answered: literals, escaped punctuation, ^ $ . ( ) | - others
+// are INCONCLUSIVE.
+func vpGetRegexpModel(pattern string, ents []vpCfgEntry) ([]byte, error) {
+	b := []byte(pattern)
+	for i := len(b) - 1; i >= 0 && b[i] != '.'; i-- {
+		if 'A' <= b[i] && b[i] <= 'Z' {
+			b[i] += 'a' - 'A'
+		}
+	}
+	for i := 0; i < len(b) && b[i] != '.'; i++ {
+		if 'A' <= b[i] && b[i] <= 'Z' {
+			b[i] += 'a' - 'A'
+		}
+	}
+	for i := 0; i < len(b); i++ {
+		c := b[i]
+		if c == '\\' {
+			i++
+			if i >= len(b) || !strings.ContainsRune(".()[]{}+*?|^$\\", rune(b[i])) {
+				vp_Inconclusive("--get-regexp pattern outside the modelled ERE subset: " + pattern)
+			}
+			continue
+		}
+		plain := 'a' <= c && c <= 'z' || 'A' <= c && c <= 'Z' || '0' <= c && c <= '9' || strings.ContainsRune("/_-.^$()|", rune(c))
+		if !plain {
+			vp_Inconclusive("--get-regexp pattern outside the modelled ERE subset: " + pattern)
+		}
+	}
+	re, err := regexp.Compile(string(b))
+	if err != nil {
+		vp_ExitCode(6)
+		return nil, &exec.ExitError{ProcessState: &os.ProcessState{}}
+	}
+	var res []byte
+	n := 0
+	for _, e := range ents {
+		if !re.MatchString(e.key) {
+			continue
+		}
+		n++
+		res = append(res, e.key...)
+		if e.hasValue {
+			res = append(res, '\n')
+			res = append(res, e.value...)
+		}
+		res = append(res, 0)
+	}
+	if n == 0 {
+		vp_ExitCode(1)
+		return nil, &exec.ExitError{ProcessState: &os.ProcessState{}}
+	}
+	return res, nil
 }
 
 var vpKeyMenu = []string{
@@ -107,7 +178,7 @@ func VPH_configParse() {
 	ents = append(ents, vpCfgEntry{"advice.graftfiledeprecated", "false", true})
 
 	prefix := []string{"refgroup", "refgroup.foo", "", "refgroup."}[vp_Choice("prefix", 4)]
-	repo := vpRepoWithOutput(out, 0)
+	repo := vpRepoWithOutput(out, 0, ents)
 	var cfg *Config
 	var err error
 	panicked := vp_Catch(func() { cfg, err = repo.GetConfig(prefix) })
@@ -130,6 +201,57 @@ func VPH_configParse() {
 		vp_Assert(cfg.Entries[i].Value == want[i].Value, "values byte-exact")
 	}
 	vp_KnownRegionEnd("KF-g")
+	vp_Reach("end")
+}
+
+// VPH_configSubsections (C15): refgroup names are subsections: case-sensitive,
+// any character. Entries of groups that differ only in case, or whose names
+// hold regular-expression metacharacters, are read exactly - also when the
+// code lets git pre-filter the listing (`--get-regexp`, modelled above).
+var vpSubKeyMenu = []string{
+	"refgroup.Foo.include", "refgroup.foo.include", "refgroup.a(b).name", "refgroup.ab.name",
+	"refgroup.foo.Bar.exclude", "refgroup.foo.bar.exclude", "core.bare", "refgroup.a.b.include", "refgroup.axb.include",
+}
+
+func VPH_configSubsections() {
+	k := vp_Choice("entries", vp_Param("kmax")+1)
+	var ents []vpCfgEntry
+	var out []byte
+	for i := 0; i < k; i++ {
+		e := vpCfgEntry{key: vpSubKeyMenu[vp_Choice("key", len(vpSubKeyMenu))], hasValue: true}
+		v := vp_Bytes("v", 1)
+		vp_Assume(v[0] != 0)
+		e.value = string(v)
+		out = append(out, e.key...)
+		out = append(out, '\n')
+		out = append(out, v...)
+		out = append(out, 0)
+		ents = append(ents, e)
+	}
+	out = append(out, "advice.graftfiledeprecated\nfalse\x00"...)
+	ents = append(ents, vpCfgEntry{"advice.graftfiledeprecated", "false", true})
+	prefixes := []string{"refgroup.Foo", "refgroup.foo", "refgroup.a(b)", "refgroup.foo.Bar", "refgroup.a.b", "refgroup"}
+	prefix := prefixes[vp_Choice("prefix", len(prefixes))]
+	repo := vpRepoWithOutput(out, 0, ents)
+	var cfg *Config
+	var err error
+	panicked := vp_Catch(func() { cfg, err = repo.GetConfig(prefix) })
+	vp_Assert(!panicked, "GetConfig does not panic")
+	vp_Assert(err == nil, "a section that exists or not is read without error")
+	if panicked || err != nil {
+		return
+	}
+	var want []ConfigEntry
+	for _, e := range ents {
+		if ok, rest := vpKeyMatch(e.key, prefix); ok {
+			want = append(want, ConfigEntry{rest, e.value})
+		}
+	}
+	vp_Assert(len(cfg.Entries) == len(want), "exactly the entries of the (case-sensitive, verbatim) subsection")
+	for i := 0; i < len(want) && i < len(cfg.Entries); i++ {
+		vp_Assert(cfg.Entries[i].Key == want[i].Key, "keys in git's order")
+		vp_Assert(cfg.Entries[i].Value == want[i].Value, "values byte-exact")
+	}
 	vp_Reach("end")
 }
 
